@@ -3870,6 +3870,12 @@ class ScoreVariant(object):
 
                     # make a copy of the object
                     o_copy = copy(o)
+                    # the copy must not share its lists of references (e.g.
+                    # slur_starts) with the original, which would grow when
+                    # slurs and tuplets are attached to the copy
+                    for attr in getattr(o_copy, "_ref_attrs", []):
+                        if isinstance(getattr(o_copy, attr, None), list):
+                            setattr(o_copy, attr, list(getattr(o_copy, attr)))
                     # add it to the set of new objects (for which the refs will
                     # be replaced)
                     o_new.add(o_copy)
